@@ -52,6 +52,7 @@ def wDeadStaticLocal : List Decl :=
 
 theorem C15_finding_static_local_in_dead_inline :
     valid wDeadStaticLocal = true ∧ deadStaticLocalRegion wDeadStaticLocal = true ∧
+    deadStaticLocalVisibleRegion wDeadStaticLocal = true ∧
     -- the always-emitted anonymous datum mentions f, f is not emitted: `f` becomes an undefined global symbol
     holdsOn (parseUnit wDeadStaticLocal) (fun gs =>
       (objectSymbols true gs).contains ⟨.named 0, .global, .undef, none, 0⟩ &&
@@ -129,6 +130,20 @@ def wFrozenDeclOnly : List Decl := [ .func 0 1 true false false none, .func 0 1 
 theorem C15_region_frozen_narrowed :
     flagsFrozenRegion wFrozenDeclOnly = true ∧ flagsFrozenDefRegion wFrozenDeclOnly = false ∧
     InScope wFrozenDeclOnly = true ∧ symbolsSide wFrozenDeclOnly = true := by decide
+
+/-- `int x; static inline int g(void){ static int *p = &x; }  int main(void){ }` (x=0, g=1, main=2): the static local of
+    the dead function names an object the unit defines anyway.  Inside `deadStaticLocalRegion`, outside the narrowed
+    `deadStaticLocalVisibleRegion`: the always-emitted datum adds a relocation but no symbol, the unit is inside the
+    scope of `C15_symbols_partial`, and the tables agree. -/
+def wDeadStaticLocalHarmless : List Decl :=
+  [ .obj 0 false false false intTy none,
+    .func 1 1 true false true (some [.staticLocal false ⟨8, 8, false, false⟩ (some [.ref (.obj 0)])]),
+    .func 2 4 false false false (some []) ]
+
+theorem C15_region_dead_static_local_narrowed :
+    deadStaticLocalRegion wDeadStaticLocalHarmless = true ∧ deadStaticLocalVisibleRegion wDeadStaticLocalHarmless = false ∧
+    InScope wDeadStaticLocalHarmless = true ∧ symbolsSide wDeadStaticLocalHarmless = true ∧
+    differs true wDeadStaticLocalHarmless = false ∧ differs false wDeadStaticLocalHarmless = false := by decide
 
 /-- every witness of a known finding of the symbol table lies outside `InScope` -/
 theorem C15_findings_outside_scope :
